@@ -74,6 +74,9 @@ def gen_route(rng, L):
             r['post'] = 0
         if not r['give_offset']:
             r['pre'] = 0
+        if fam == 'BytesIO':
+            # what happened to the in-memory file before: nothing, partly read, filled by write(), used for another object already
+            r['bio'] = rng.choice(['fresh', 'fresh', 'read-before', 'written', 'used-before', 'used-before-windowed'])
     elif fam in ('file', 'filehandle'):
         r['pre'] = rng.choice([0, 0, 0, 3, 8, 16, 21])
         if rng.random() < 0.1:
@@ -182,9 +185,21 @@ def build(cls, bits, r, files):
             else:
                 cont = {'bytes': bytes, 'bytearray': bytearray, 'memoryview': memoryview}[r['container']](by)
             return cls(bytes=cont, **kw), intended
+        bio = r.get('bio', 'fresh')
+        if bio == 'written':
+            f = io.BytesIO()
+            f.write(by)
+        else:
+            f = io.BytesIO(by)
+            if bio == 'read-before':
+                f.read(len(by) // 2 + 1)
+            elif bio == 'used-before':
+                Bits(f)
+            elif bio == 'used-before-windowed' and len(by):
+                Bits(f, offset=1, length=min(8 * len(by) - 1, 5))
         if not kw:
-            return cls(io.BytesIO(by)), intended
-        return cls(io.BytesIO(by), **kw), intended
+            return cls(f), intended
+        return cls(f, **kw), intended
     if fam in ('file', 'filehandle'):
         pre, post = rb(_RNG[0], r['pre']), rb(_RNG[0], r['post'])
         full = pre + bits + post
